@@ -613,9 +613,17 @@ def run_haplotag(
                 read_to_haplotype = None
 
             assert not include_unmapped or len(regions) == 1
+            done_regions: List[Tuple[int, Optional[int]]] = []
             for start, end in regions:
                 logger.debug("Working on %s:%s-%s", chrom, start, end)
                 for alignment in bam_reader.fetch(contig=chrom, start=start, stop=end):
+                    if any(
+                        alignment.reference_start < (e if e is not None else float("inf"))
+                        and (alignment.reference_end or alignment.reference_start + 1) > s
+                        for s, e in done_regions
+                    ):
+                        # already written when an earlier region overlapping it was processed
+                        continue
                     n_alignments += 1
                     haplotype_name = "none"
                     phaseset = "none"
@@ -661,6 +669,7 @@ def run_haplotag(
 
                     if n_alignments % 100_000 == 0:
                         logger.debug(f"Processed {n_alignments} alignment records.")
+                done_regions.append((start, end))
         if include_unmapped:
             logger.debug("Copying unmapped reads to output")
             for alignment in bam_reader.fetch(contig="*"):
